@@ -18,7 +18,7 @@ RULE = ('values: text over ASCII / Latin-1 / BMP / astral planes with CR, LF, NU
         'http.client.responses for the blacklist. Non-trivial = the value contains a control character or a non-ASCII character or is '
         'not a str; distinct = distinct (entry point, class, repr(value)).')
 PYOPT = {'quick': 1, 'thorough': 1}     # one unit of every kind is also served by an interpreter started with -O (assert statements compiled out)
-REQUIRED = ['units_run_under_python_-O', 'values_that_cannot_be_utf8_encoded', 'unencodable_value_refused', 'length_sweep_cases', 'header_lists_compared_with_model', 'header_reads_compared', 'multi_valued_blacklist_checked', 'third_or_later_value_of_a_header', 'ctl_rejected', 'clean_accepted_and_roundtripped', 'non_ascii_roundtripped', 'multi_value_order_checked', 'blacklist_204',
+REQUIRED = ['units_run_under_python_-O', 'responses_with_many_header_lines', 'values_that_cannot_be_utf8_encoded', 'unencodable_value_refused', 'length_sweep_cases', 'header_lists_compared_with_model', 'header_reads_compared', 'multi_valued_blacklist_checked', 'third_or_later_value_of_a_header', 'ctl_rejected', 'clean_accepted_and_roundtripped', 'non_ascii_roundtripped', 'multi_value_order_checked', 'blacklist_204',
             'blacklist_304', 'statuses_checked', 'wsgi_emissions', 'entry_setitem', 'entry_append', 'entry_setdefault', 'entry_attr',
             'entry_ctor_dict', 'entry_ctor_pairs', 'entry_ctor_iterable', 'response_inspected_after_a_rejection', 'entry_more_headers', 'entry_httperror_options', 'non_str_types']
 ASSUMPTIONS = ['header names are ASCII tokens (the statement speaks of values)',
@@ -690,12 +690,69 @@ def length_unit(ctx, unit):
     ctx.sample({'lengths': f'1..{unit["upto"]} and around 512, 1024, 4096, 8192, 65536', 'positions': 'first, middle, last', 'setters': 7})
 
 
+LINEBREAK_LOOKALIKES = ['\x0b', '\x0c', '\x1c', '\x1d', '\x1e', '\x85', '\u2028', '\u2029', 'Å', 'ą', 'х', '元', '公', '全']     # what str.splitlines() or a byte 0x85 would cut at
+
+
+def crowded_unit(ctx, unit):
+    """Responses with many header lines (1 .. a few hundred: Link, Vary, Set-Thing, a name per line), the values legal but full
+    of text that naive line handling trips over - vertical tab, form feed, the C1 'next line', separators U+2028/9, letters
+    whose UTF-8 contains byte 0x85, empty values at the end.  Emitted: every value, once, in order, under its own name."""
+    from ombott.response import Response, HTTPResponse
+    rng = ctx.rng
+    for N in unit['counts']:
+        for rep in range(unit.get('reps', 3)):
+            r = HTTPResponse('b') if (N + rep) % 2 else Response()
+            want = {}
+            for i in range(N):
+                shape = rng.randrange(5)
+                base = rng.choice(TEXTS)
+                if shape == 0:
+                    v = base + rng.choice(LINEBREAK_LOOKALIKES) + 'tail%d' % i
+                elif shape == 1:
+                    v = rng.choice(LINEBREAK_LOOKALIKES) + base
+                elif shape == 2:
+                    v = '' if i % 2 else base + rng.choice(LINEBREAK_LOOKALIKES)
+                else:
+                    v = base + str(i)
+                n = rng.choice(['Link', 'Vary', 'Set-Thing', 'X-H%d' % i, 'X-H%d' % i])
+                if n in want and rng.random() < 0.15:
+                    r.headers[n] = v
+                    want[n] = [v]
+                else:
+                    r.headers.append(n, v)
+                    want.setdefault(n, []).append(v)
+            ctx.case(('crowded', N, rep), nontrivial=True)
+            ctx.count('responses_with_many_header_lines')
+            ctx.note_max('most_header_lines_on_one_response', N)
+            wit = {'unit': {'kind': 'note', 'header_lines': N, 'values (first 6)': [repr(x) for vs in list(want.values())[:6] for x in vs[:2]]}}
+            try:
+                hl = r.headerlist
+            except Exception as e:  # noqa
+                ctx.violation(f'headerlist-raises-{type(e).__name__}', f'{N} header lines: {e!r}', wit)
+                continue
+            check_emitted_list(ctx, hl, f'{N} header lines', wit)
+            try:
+                em = {}
+                for k, val in hl:
+                    if k in want:
+                        em.setdefault(k, []).append(val.encode('latin1').decode('utf8'))
+            except UnicodeError as e:
+                ctx.violation('emitted-value-does-not-decode-back', f'{N} header lines: {e!r}', wit)
+                continue
+            if em != want or [k for k, _ in hl if k in want and k.startswith('X-H')] != [k for k in want if k.startswith('X-H') for _ in want[k]]:
+                diff = [(k, want[k], em.get(k)) for k in want if em.get(k) != want[k]][:2]
+                ctx.violation('emitted-headers-differ-from-model', f'{N} header lines: first differences (name, stored, emitted) {diff!r}', wit)
+    ctx.sample({'header_line_counts': unit['counts'][:20]})
+
+
 def plan(tier, seed):
     if tier == 'quick':
         return ([{'kind': 'setter', 'n': 4000, 'sub': i} for i in range(4)] + [{'kind': 'multi', 'n': 1500}, {'kind': 'status'},
-                {'kind': 'wsgi', 'n': 3000}, {'kind': 'length', 'upto': 300}, {'kind': 'ops', 'n': 1500}, {'kind': 'surrogate'}])
+                {'kind': 'wsgi', 'n': 3000}, {'kind': 'length', 'upto': 300}, {'kind': 'ops', 'n': 1500}, {'kind': 'surrogate'},
+                {'kind': 'crowded', 'counts': list(range(1, 70)) + [100, 128, 129, 257, 600]}])
     return ([{'kind': 'setter', 'n': 50000, 'sub': i} for i in range(16)] + [{'kind': 'multi', 'n': 20000, 'sub': i} for i in range(4)]
-            + [{'kind': 'status'}] + [{'kind': 'wsgi', 'n': 25000, 'sub': i} for i in range(8)] + [{'kind': 'length', 'upto': 2100}] + [{'kind': 'ops', 'n': 20000, 'sub': i} for i in range(4)] + [{'kind': 'surrogate'}])
+            + [{'kind': 'status'}] + [{'kind': 'wsgi', 'n': 25000, 'sub': i} for i in range(8)] + [{'kind': 'length', 'upto': 2100}] + [{'kind': 'ops', 'n': 20000, 'sub': i} for i in range(4)] + [{'kind': 'surrogate'}]
+            + [{'kind': 'crowded', 'counts': list(range(1 + j, 400, 4)) + [1000 + j, 4096 + j], 'reps': 6, 'sub': j} for j in range(4)])
 
 
 def run_unit(ctx, unit):
@@ -714,5 +771,7 @@ def run_unit(ctx, unit):
         ops_unit(ctx, unit)
     elif k == 'surrogate':
         surrogate_unit(ctx, unit)
+    elif k == 'crowded':
+        crowded_unit(ctx, unit)
     elif k == 'note':
         print('  witness (re-run the tier to re-evaluate):', unit)
